@@ -97,6 +97,8 @@ v('C07', 'fire', KA, 'cho_solve((L, True), HP', 'cho_solve((L, False), HP')
 v('C07', 'fire', KA, 'S = HP @ H.T + R', 'S = HP @ H.T')
 v('C07 C19', 'fire', KA, 'K = cho_solve((L, True), HP, overwrite_b=True).T', 'K = cho_solve((L, True), P, overwrite_b=True).T')
 v('C07', 'silent', KA, 'U = np.eye(len(x)) - K.dot(H)', 'U = np.identity(len(x)) - K @ H')
+v('C02', 'fire', 'strapdown.py', "        rph = transform.mat_to_rph(self.mat_nb[n_data : n_data + n_readings])\n", "        rph = transform.mat_to_rph(self.mat_nb[n_data : n_data + n_readings])\n        self.mat_nb[n_data : n_data + n_readings] = transform.mat_from_rph(rph)\n", 'seeded C02 round 3: attitude buffer re-derived from the output angles at the end of each call')
+v('C05', 'silent', 'error_model.py', '            result = self.TRANSFORM_2D_3D @ result\n        return result', '            result = util.mm_prod(self.TRANSFORM_2D_3D, result)\n        return result', 'same reduction through mm_prod')
 _SP_OLD = "        if not self.with_altitude:\n            pva = pva.copy()\n            pva.VD = 0.0\n        i = len(self.trajectory) - 1"
 v('C13', 'fire', 'strapdown.py', _SP_OLD, _SP_OLD.replace('if not self.with_altitude:', 'if not self.with_altitude and abs(pva.VD) > 0:'), 'seeded C13 round 3: zeroing skipped when abs(VD) > 0 is false (NaN passes)')
 v('C13 C02', 'silent', 'strapdown.py', _SP_OLD, _SP_OLD.replace('if not self.with_altitude:', 'if not self.with_altitude and pva.VD != 0:'), 'zeroing skipped only when VD == 0 (NaN != 0 is true)')
